@@ -303,7 +303,7 @@ class TypeDef:
             for v in self.variants:
                 a = "".join(x + "\n" for x in v.attr_src)
                 fs = fields_src(v).replace(" pub ", " ").replace("pub ", "")
-                d = "" if v.disc is None else " = %d" % v.disc
+                d = "" if v.disc is None else " = %s" % (getattr(v, "disc_src", None) or "%d" % v.disc)
                 if v.shape == "unit":
                     vs.append("%s %s%s" % (a, v.name, d))
                 elif v.shape == "tuple":
